@@ -871,3 +871,119 @@ def c19_worker(item):
 def cli_c19(v, tier, seed):
     b = rq()
     cli.pool_run(v, c19_worker, [(seed * 1_000_003 + i, b) for i in range(n(tier, 1500, 20000))])
+
+
+# ----------------------------------------------------------------------------
+# C14 presentation / loader options never change the result
+
+
+C14_VARIANTS = [["--mmap"], [], ["-v"], ["-vv"], ["--color", "always"], ["--color", "never"], ["--stats"], ["-A", "multiapply"],
+                ["--mmap", "-v", "--stats"], ["-vv", "--color", "always", "-A", "multiapply"], ["--mmap", "-A", "multiapply", "--color", "always"]]
+
+
+def c14_worker(item):
+    seed, binary = item
+    r = random.Random(seed * 982451653 + 14)
+    res = Res()
+    shape = r.choice(["plain", "plain", "plain", "empty-source", "empty-patch", "empty-series", "all-applied", "goal-applied"])
+    cfg = wsgen.GenConfig(p_fail=0.5, max_patches=r.choice([1, 3, 6]))
+    ws = wsgen.generate(seed, cfg)
+    first = 0
+    goal = ["-a"]
+    if shape == "empty-source":
+        # an existing zero-length file that a patch fills, and one that is only renamed / chmod-ed
+        for t in ws.trees:
+            t["empty.txt"] = (b"", 0o644)
+        op = wsgen.Op("modify", "empty.txt", pre=b"", post=b"filled\nin\n", pre_mode=0o644, post_mode=0o644)
+        op.style = "samename"
+        p = wsgen.PatchSpec("pzz-fill.patch", [op], 1, False, False)
+        wsgen.render_patch(p, r)
+        if ws.fail_at is None:
+            ws.patches.append(p)
+            nt = dict(ws.trees[-1])
+            nt["empty.txt"] = (op.post, 0o644)
+            ws.trees.append(nt)
+    elif shape == "empty-patch":
+        p = wsgen.PatchSpec("pzz-empty.patch", [], 1, False, False)
+        p.text = b""
+        p.series_line = p.name
+        pos = r.randint(0, len(ws.patches))
+        if ws.fail_at is None or pos <= ws.fail_at:
+            ws.patches.insert(pos, p)
+            if ws.fail_at is not None:
+                ws.fail_at += 1
+            ws.trees.insert(pos + 1, dict(ws.trees[pos])) if pos < len(ws.trees) else None
+    elif shape == "empty-series":
+        ws.patches = []
+        ws.trees = ws.trees[:1]
+        ws.fail_at = None
+    elif shape in ("all-applied", "goal-applied"):
+        if ws.fail_at is not None:
+            ws.patches = ws.patches[:ws.fail_at]
+            ws.trees = ws.trees[:ws.fail_at + 1]
+            ws.fail_at = None
+        first = len(ws.patches)
+        if shape == "goal-applied" and ws.patches:
+            goal = [r.choice(ws.patches).name]
+        elif r.random() < 0.5:
+            goal = [] if r.random() < 0.5 else ["2"]
+    threads = r.choice([1, 4])
+    backup = r.choice(["always", None, "never"])
+    variant = r.choice(C14_VARIANTS)
+    if r.random() < 0.3:
+        variant = sorted(set(sum(r.sample(C14_VARIANTS, 2), [])), key=lambda x: x)
+        # repair option/value pairs broken by the set union
+        variant = [x for x in variant if x not in ("always", "never", "multiapply", "--color", "-A")]
+    base = base_args(threads=threads, backup=backup, verbosity="-q") + ["push"] + goal
+    var = base_args(threads=threads, backup=backup, verbosity=None) + list(variant) + ["push"] + goal
+    sig0 = {"driver": "seq" if threads == 1 else "par", "shape": shape}
+    with Scratch("c14") as scr:
+        orig, w1 = fresh(scr, ws, first)
+        w2 = os.path.join(scr, "w2")
+        runner.copy_ws(orig, w2)
+        r1 = runner.run_rq(binary, w1, base)
+        r2 = runner.run_rq(binary, w2, var)
+        res["evals"] = 1
+        if r1.timed_out or r2.timed_out:
+            res["inconclusive"] = "watchdog"
+            return res
+        for rr, a in ((r1, base), (r2, var)):
+            if rr.crashed():
+                res.viol(dict(sig0, **{"class": "crash", "rc": str(rr.rc), "where": cli.crash_site(rr.err), "options": " ".join(sorted(set(variant))) if rr is r2 else "-q"}),
+                         "crash with %s: %s" % (a, rr.err.decode("utf-8", "replace")[-400:]), orig, [binary] + a)
+                return res
+        o1, o2 = cli.observe(w1), cli.observe(w2)
+        what = None
+        if r1.rc != r2.rc:
+            what = ("exit-status", "%s vs %s" % (r1.rc, r2.rc))
+        elif o1["tree"] != o2["tree"] or o1["dirs"] != o2["dirs"]:
+            dp = sorted(p for p in set(o1["tree"]) | set(o2["tree"]) if o1["tree"].get(p) != o2["tree"].get(p))
+            what = ("tree", "%s" % dp[:4])
+        elif o1["pc"] != o2["pc"]:
+            dp = sorted(p for p in set(o1["pc"]) | set(o2["pc"]) if o1["pc"].get(p) != o2["pc"].get(p))
+            what = ("pc", "%s" % dp[:4])
+        elif o1["rej"] != o2["rej"]:
+            what = ("rejects", "%s vs %s" % (sorted(o1["rej"]), sorted(o2["rej"])))
+        opt_key = " ".join(x for x in variant if x.startswith("-")) or "default-verbosity"
+        if what:
+            res.viol(dict(sig0, **{"class": "option-changes-result", "what": what[0], "options": opt_key}),
+                     "-q vs %s: %s differs: %s; stderr(-q) %s | stderr(variant) %s" % (variant, what[0], what[1], r1.err.decode("utf-8", "replace")[-200:], r2.err.decode("utf-8", "replace")[-200:]),
+                     orig, [binary] + var, extra={"baseline": base})
+            return res
+        res.count("held-runs")
+        res.count("shape:%s" % shape)
+        res.count("options:%s" % opt_key)
+        ntouched = sum(1 for p in set(o1["tree"]) if o1["tree"].get(p) != ws.trees[first].get(p, (None,))[0:1])
+        if r1.rc == 1 or len(ws.patches) - first >= 1:
+            res["nontrivial"].append(case_key(cli.ws_shape_key(ws), shape, tuple(variant), threads, backup, tuple(goal)))
+        if r1.rc == 1:
+            res.count("failing-series")
+        if seed % 300 == 19:
+            res["sample"] = {"workspace": ws.describe(), "shape": shape, "baseline": base, "variant": var, "exit": r1.rc}
+        del ntouched
+    return res
+
+
+def cli_c14(v, tier, seed):
+    b = rq()
+    cli.pool_run(v, c14_worker, [(seed * 1_000_003 + i, b) for i in range(n(tier, 4000, 60000))])
